@@ -18,7 +18,11 @@ AllCases(u) ==
   (IF "jmp" \in Families THEN JmpCases(u) ELSE {}) \cup
   (IF "far" \in Families THEN FarCases(u) ELSE {}) \cup
   (IF "mem" \in Families THEN MemCases(u) ELSE {}) \cup
-  (IF "bounds" \in Families THEN BoundsCases(u) ELSE {})
+  (IF "bounds" \in Families THEN BoundsCases(u) ELSE {}) \cup
+  (IF "farcall" \in Families THEN FarCallCases(u) ELSE {}) \cup
+  (IF "calls" \in Families THEN CallsCases(u) ELSE {}) \cup
+  (IF "helpers" \in Families THEN HelperCases(u) ELSE {}) \cup
+  (IF "ctx" \in Families THEN CtxCases(u) ELSE {})
 
 Init == \E c \in AllCases(0) : InitFor(c)
 Next == ExecNext
@@ -28,7 +32,7 @@ Spec == Init /\ [][Next]_mvars
 ProgOut(p) == [k \in 1..Len(p) |-> <<p[k].n, <<p[k].i.opc, p[k].i.dst, p[k].i.src, p[k].i.off, p[k].i.imm>>>>]
 CaseOut(c) == [id |-> c.id, fam |-> c.fam, vm |-> c.vm, prog |-> ProgOut(c.prog),
                pkt |-> c.pkt, mbuf |-> c.mbuf, fixed |-> c.fixed, allow |-> c.allow,
-               helpers |-> c.helpers, calc |-> c.calc, fsz |-> c.fsz, budget |-> c.budget, dev |-> c.dev,
+               helpers |-> c.helpers, calc |-> c.calc, fsz |-> c.fsz, budget |-> c.budget, dev |-> c.dev, warm |-> c.warm,
                wf |-> WellFormed(c.prog)]
 
 Emit == Done => PrintT("REPLAY " \o ToJson([case |-> CaseOut(env.c), exp |-> Outcome]))
